@@ -69,13 +69,17 @@ theorem rack_arith_regenerated (P M L C : Nat) :
 /-- structure of the source that the models rely on: the Range / RoundRobin loops are the plain triple loop without
 early exits, every value of the map `findMembersByTopic` returns is sorted, both member-by-topic loops skip repeated topics through
 `topicListedBefore` (modelled by `firstListings`), and `makeSyncGroupRequestV0` allocates the per-member map inside
-the loop over the members (modelled by `syncRequest` calling `toTopics32` afresh per member) -/
+the loop over the members (modelled by `syncRequest` calling `toTopics32` afresh per member), and both Metadata
+readers of conn.go keep the other topics when one is unknown (modelled by `readTopicMetadata`) -/
 theorem structure_regenerated :
     Gen.GroupBalancer.plainSelectionLoops = ["RangeGroupBalancer.AssignGroups", "RoundRobinGroupBalancer.AssignGroups"] ∧
     Gen.GroupBalancer.sortsEveryMapValue = true ∧
     Gen.GroupBalancer.topicGuardSites = ["findMembersByTopic", "RackAffinityGroupBalancer.AssignGroups"] ∧
     Gen.GroupBalancer.topicListedBeforeIsPrefixSearch = true ∧
-    Gen.GroupBalancer.topics32FreshPerMember = true := by decide
+    Gen.GroupBalancer.topics32FreshPerMember = true ∧
+    Gen.GroupBalancer.topicMetadataReaders = (2, 2) ∧
+    Gen.GroupBalancer.extractTopicsIsFirstSeenThenSorted = true ∧
+    Gen.GroupBalancer.makeAssignmentsRangesOverOwnTopics = true := by decide
 
 /-! ## 1. Range -/
 
@@ -564,6 +568,23 @@ theorem rack_round (ρ : TopicMap → TopicMap) (hρ : ∀ l, (ρ l).Perm l) (ms
   have hd := rack_delivered ρ hρ ms got σ₁ σ₂ h h1 h2 ids ts hts hr hids t ht
   ⟨round_good ρ hρ ms cluster got hread _ ids ts t hd.1, hd.2⟩
 
+/-! A subscribed topic that does not exist (yet) — finding C14-D31 (fixed in /repo).  `assignTopicPartitions` means
+"no assignments for the topic" (its comment) and goes on; with the fix the leader is still given every partition of the
+topics that do exist, so all `*_round` theorems apply with `got = leaderPartitions cluster missing ms` (the cluster has no
+partitions of a missing topic).  Any other lookup error fails the join: nothing is distributed, nobody gets a generation —
+C14 is a statement about the assignments that are distributed. -/
+
+theorem missing_topic_reads (cluster : List Part) (missing : List Nat) (ms : List Member)
+    (hmiss : ∀ p ∈ cluster, ¬ p.topic ∈ missing) :
+    ReadsTopics cluster (extractTopics ms) (leaderPartitions cluster missing ms) :=
+  leaderPartitions_reads cluster missing ms hmiss (KV.GroupRound.extractTopics_nodup ms)
+
+/-- before the fix: one missing topic hid the partitions of every other topic (the whole group received nothing) -/
+theorem prefix_missing_topic_starves_counterexample :
+    let cluster : List Part := [⟨0, 0, 0⟩, ⟨0, 1, 0⟩]
+    readTopicMetadataPreFix (metadataAnswer cluster [1] [0, 1]) [] = ([], true) ∧
+    readTopicMetadata (metadataAnswer cluster [1] [0, 1]) = (cluster, true) := by decide
+
 end Glue
 
 /-! ## 7. The two payloads at byte level (joingroup.go `groupMetadata`, syncgroup.go `groupAssignment`, read.go,
@@ -635,10 +656,6 @@ theorem generation_from_its_round (P : Params) (s : St) (h : Reachable P s) (m g
       asg = received P.ρ x.asg m :=
   running_from_round P s h m gid asg hp
 
-/-- the Go map a balancer returns for the members `ms`, as the balancer parameter of the round model -/
-def balanceOf (b : List Member → List Part → Asg) : List Member → List Part → Assignments :=
-  fun ms got => mapOf (b ms got) (ms.map (·.id)) (extractTopics ms)
-
 /-- C14 across the life cycle, for a balancer `b` that satisfies C14 on one call: in every reachable state all running
 generations with generation id `gid` hold parts of one assignment `d` that covers the cluster's partitions of every
 subscribed topic exactly once among the members of generation `gid`, evenly, and gives nothing to non-subscribers -/
@@ -709,6 +726,12 @@ theorem round_steps_are_grouprun_steps (c : KV.Group.Cfg) (g : KV.Group.St) (m :
   · simp only [KV.Group.step, h, if_false]
     have : ¬ (mi == m && gi == gid) = true := by simpa using h
     simp [this]
+
+/-- trace acceptance: a trace the executable acceptor `runB` replays from the initial state ends in a reachable state of
+the life-cycle model, so `generation_from_its_round` / `lifecycle_good` hold of it.  The oracle replays the traces recorded
+from real ConsumerGroups running against the group builder's coordinator simulation (go/internal/groupmock/sim.go). -/
+theorem accepted_trace_reachable (P : Params) (es : List Ev) (s : St) (h : runB P {} es 0 = .ok s) : Reachable P s :=
+  runB_reachable P es {} s 0 Reachable.init h
 
 end Round
 
